@@ -1438,15 +1438,16 @@ class UserSessionManager(Service, discriminator="user-session-manager"):
         """
         return self._login(username=username, password=password, local=False, remote_ip_address=remote_ip_address)
 
-    def _logout(self, local: bool = True, remote_session_id: Optional[str] = None) -> bool:
+    def _logout(self, local: bool = True, remote_session_id: Optional[str] = None, force: bool = False) -> bool:
         """
         Logs a user out either locally or remotely.
 
         :param local: Whether the logout is local or remote.
         :param remote_session_id: The remote session ID for remote logout.
+        :param force: End the session even if this service is not running (used when credentials change).
         :return: True if logout successful, otherwise False.
         """
-        if not self._can_perform_action():
+        if not force and not self._can_perform_action():
             return False
         session = None
         if local and self.local_session:
@@ -1487,10 +1488,10 @@ class UserSessionManager(Service, discriminator="user-session-manager"):
         logged_out = False
         # every session of the user ends, not only the first one found
         for sess_id in [sess_id for sess_id, session in self.remote_sessions.items() if session.user is user]:
-            self._logout(local=False, remote_session_id=sess_id)
+            self._logout(local=False, remote_session_id=sess_id, force=True)
             logged_out = True
         if self.local_user_logged_in and self.local_session.user is user:
-            self.local_logout()
+            self._logout(local=True, force=True)
             logged_out = True
         return logged_out
 
